@@ -185,9 +185,12 @@ def c02_single(k: int, kind: int, payload: int) -> bool:
 PAIR_SHARDS = [{"doc": d, "bits": b, "seq": False, "kind": kd, "part": pt} for d in ("Q1", "Q3", "Q5") for b in (0, 7) for kd in (0, 3, 8) for pt in (0, 1, 2)]
 
 
+PAIR_KINDS2 = list(range(NK))      # second fault: all 10 kinds
+
+
 @obligation(tier="thorough", timeout=900, shards=PAIR_SHARDS,
-            samples=[{"k1": 1, "k2": 4, "kind2": 1, "payload": 0}],
-            symbolic=["payload: int"], selectors=["k1, k2: two fault points", "kind2: 0..8", "shard: document, layout, kind of the first fault"],
+            samples=[{"k1": 1, "k2": 4, "kind2": 1, "payload": 0}, {"k1": 0, "k2": 7, "kind2": 2, "payload": 2 ** 31}],
+            symbolic=["payload: int"], selectors=["k1, k2: two fault points", "kind2: 0..9", "shard: document, layout, kind of the first fault, third of the first fault points"],
             bounds="pairs of faults; 3 documents x 2 layouts x 3 first-fault kinds (raise, null, shared exception instance), every ordered pair of fault points x 10 second kinds", findings=["F7"],
             note="two simultaneous faults, incl. the same exception instance raised at two positions (kind 8)")
 def c02_pair(k1: int, k2: int, kind2: int, payload: int) -> bool:
@@ -199,13 +202,15 @@ def c02_pair(k1: int, k2: int, kind2: int, payload: int) -> bool:
     pts = POINTS[doc]
     n3 = (len(pts) + 2) // 3 if "part" in sh else len(pts)
     lo = sh.get("part", 0) * n3
-    k1 = lo + pick(k1, max(1, min(n3, len(pts) - lo))); k2 = pick(k2, len(pts)); kind2 = pick(kind2, NK)
+    k1 = lo + pick(k1, max(1, min(n3, len(pts) - lo))); k2 = pick(k2, len(pts)); kind2 = PAIR_KINDS2[pick(kind2, len(PAIR_KINDS2))]
     if k1 == k2 or k1 >= len(pts):
         return True
     if sh["kind"] == 8 and kind2 == 8 and finding_open("F7"):
         return True
     if meaningless(doc, k2, kind2):
         return True
+    if kind2 == 7 and POINT_NAME[doc][k2] in ("String", "ID"):
+        payload = 2 ** 31 if payload > 0 else -5      # str(<symbolic int>) realises one path per value (this is what made these shards run past an hour): two representatives, as in c02_single
     eng = ENGS[bits]
     resp = run_case(eng, MODELS[bits], doc, {pts[k1]: apply_fault(sh["kind"], payload), pts[k2]: apply_fault(kind2, payload)})
     if resp is False:
